@@ -30,7 +30,7 @@ theorem C09_nil_reads (S : Schema) (i : Nat) (op : Op) (hr : op.isWrite = false)
 /-- root-level reads that are addressed to an existing field of the right shape (`lget` has no valid
     index on an empty list, so it is not in the domain: `List.Get` out of range panics by contract) -/
 def ROp.addressed (fs : List FieldDesc) : ROp → Bool
-  | .has j | .get j | .newf j => decide (j < fs.length)
+  | .has j | .get j | .newf j | .getter j => decide (j < fs.length)
   | .which g => fs.any (fun f => f.group? == some g)
   | .llen j => (match fs[j]? with | some f => (match f.shape with | .repeated _ => true | _ => false) | none => false)
   | .lget _ _ => false
@@ -56,6 +56,12 @@ theorem C09_nil_reads_no_panic (S : Schema) (i : Nat) (o : ROp) (ha : o.addresse
     simp only [Reflect.read, hf]
     unfold newF
     cases f.shape <;> cases f.elem <;> simp [outElem] <;> split <;> simp
+  case getter j =>
+    -- the generated plain-Go getter on the nil receiver returns the zero value
+    obtain ⟨f, hf⟩ : ∃ f, (S.msg i).fields[j]? = some f := ⟨_, List.getElem?_eq_getElem ha⟩
+    simp only [Reflect.read, hf, Val.isNone, if_true]
+    unfold Reflect.getterZero
+    cases f.shape <;> cases f.elem <;> simp [outElem, Elem.zeroVar] <;> split <;> simp
   case which g => simp [Reflect.read, ha]
   case range => simp [Reflect.read, Val.isNone]
   case getu => simp [Reflect.read]
@@ -132,6 +138,12 @@ example : (Reflect.step schemaA 0 .none (.r (.get 7))).2 = .listv false 0 := rfl
 example : (Reflect.step schemaA 0 .none (.r (.get 6))).2 = .mapv false 0 := rfl
 example : (Reflect.step schemaA 0 .none (.r (.get 9))).2 = .str [] := rfl
 example : (Reflect.step schemaA 0 .none (.r (.which 0))).2 = .which none := rfl
+-- the generated getters on the nil receiver: zero values (nil message pointer, nil slice, nil map, "")
+example : (Reflect.step schemaA 0 .none (.r (.getter 5))).2 = .msgv false := rfl
+example : (Reflect.step schemaA 0 .none (.r (.getter 7))).2 = .glist 0 := rfl
+example : (Reflect.step schemaA 0 .none (.r (.getter 6))).2 = .gmap 0 := rfl
+example : (Reflect.step schemaA 0 .none (.r (.getter 9))).2 = .str [] := rfl
+example : (Reflect.step schemaA 0 .none (.in 5 (.r (.getter 0)))).2 = .str [] := rfl
 example : (Reflect.step schemaA 0 .none (.r .range)).2 = .fields [] := rfl
 -- a read through an unset message field reaches the nil message B and still answers
 example : (Reflect.step schemaA 0 .none (.in 5 (.r (.get 0)))).2 = .str [] := rfl
